@@ -78,18 +78,342 @@ Lemma Sy2_eq_Sx2 ys : Sy2 ys = Sx2 ys.
 Proof. reflexivity. Qed.
 
 (* ------------------------------------ the result of correlation_coeff depends on sums only *)
+Ltac both_sides :=
+  etransitivity; [ pyrun_using ltac:(pylra_fast); reflexivity
+                 | symmetry; pyrun_using ltac:(pylra_fast); reflexivity ].
+
 Lemma correlation_depends_on_sums xl yl xl' yl' P Q Rr S T U V W Rr' S' V' N :
   CurveFitting_correlation_coeff Rops (cfobj xl yl P Q Rr S T U V W N)
   = CurveFitting_correlation_coeff Rops (cfobj xl' yl' P Q Rr' S' T U V' W N).
 Proof.
   unfold cfobj.
   destruct (Rlt_dec (IZR N * Q - P * P) 0) as [Hx | Hx].
-  { etransitivity; [| symmetry]; (pyrun_using ltac:(pylra_fast); reflexivity). }
+  { both_sides. }
   apply Rnot_lt_le in Hx.
   destruct (Rlt_dec (IZR N * W - T * T) 0) as [Hy | Hy].
-  { etransitivity; [| symmetry]; (pyrun_using ltac:(pylra_fast); reflexivity). }
+  { both_sides. }
   apply Rnot_lt_le in Hy.
   destruct (Req_dec (sqrt (IZR N * Q - P * P) * sqrt (IZR N * W - T * T)) 0) as [Hz | Hz].
-  { etransitivity; [| symmetry]; (pyrun_using ltac:(pylra_fast); reflexivity). }
-  etransitivity; [| symmetry]; (pyrun_using ltac:(pylra_fast); reflexivity).
+  { both_sides. }
+  both_sides.
+Qed.
+
+(* -------------------------------------------------- correlation: rescaling, collinear data *)
+Lemma sqrt_sq_scale a v : 0 <= v -> sqrt (a * a * v) = Rabs a * sqrt v.
+Proof.
+  intro Hv. rewrite sqrt_mult by (try exact Hv; nra).
+  change (a * a) with (Rsqr a). rewrite sqrt_Rsqr_abs. reflexivity.
+Qed.
+
+Lemma corr_r_scale_x n P Q T U W a b : a <> 0 -> 0 < n * Q - P * P -> 0 < n * W - T * T ->
+  corr_r n (a * P + n * b) (a * a * Q + 2 * a * b * P + n * (b * b)) T (a * U + b * T) W
+  = a / Rabs a * corr_r n P Q T U W.
+Proof.
+  intros Ha Hx Hy. unfold corr_r.
+  replace (n * (a * a * Q + 2 * a * b * P + n * (b * b)) - (a * P + n * b) * (a * P + n * b))
+    with (a * a * (n * Q - P * P)) by ring.
+  replace (n * (a * U + b * T) - (a * P + n * b) * T) with (a * (n * U - P * T)) by ring.
+  rewrite sqrt_sq_scale by lra.
+  assert (Rabs a <> 0) by (apply Rabs_no_R0; exact Ha).
+  assert (sqrt (n * Q - P * P) <> 0) by (apply Rgt_not_eq, sqrt_lt_R0; exact Hx).
+  assert (sqrt (n * W - T * T) <> 0) by (apply Rgt_not_eq, sqrt_lt_R0; exact Hy).
+  field. repeat split; assumption.
+Qed.
+
+Lemma corr_r_scale_y n P Q T U W a b : a <> 0 -> 0 < n * Q - P * P -> 0 < n * W - T * T ->
+  corr_r n P Q (a * T + n * b) (a * U + b * P) (a * a * W + 2 * a * b * T + n * (b * b))
+  = a / Rabs a * corr_r n P Q T U W.
+Proof.
+  intros Ha Hx Hy. unfold corr_r.
+  replace (n * (a * a * W + 2 * a * b * T + n * (b * b)) - (a * T + n * b) * (a * T + n * b))
+    with (a * a * (n * W - T * T)) by ring.
+  replace (n * (a * U + b * P) - P * (a * T + n * b)) with (a * (n * U - P * T)) by ring.
+  rewrite sqrt_sq_scale by lra.
+  assert (Rabs a <> 0) by (apply Rabs_no_R0; exact Ha).
+  assert (sqrt (n * Q - P * P) <> 0) by (apply Rgt_not_eq, sqrt_lt_R0; exact Hx).
+  assert (sqrt (n * W - T * T) <> 0) by (apply Rgt_not_eq, sqrt_lt_R0; exact Hy).
+  field. repeat split; assumption.
+Qed.
+
+Definition r_of (xs ys : list R) : R :=
+  corr_r (INR (length xs)) (Sx xs) (Sx2 xs) (Sx ys) (Sxy xs ys) (Sy2 ys).
+
+Lemma correlation_value xs ys : 0 < var_x xs -> 0 < var_y xs ys ->
+  CurveFitting_correlation_coeff Rops (cf_of xs ys) = VFloat (r_of xs ys).
+Proof.
+  intros Hx Hy. unfold cf_of, r_of. rewrite correlation_formula; rewrite ?IZR_len; [reflexivity | exact Hx | exact Hy].
+Qed.
+
+Lemma sgn_pos a : 0 < a -> a / Rabs a = 1.
+Proof. intro H. rewrite Rabs_right by lra. field. lra. Qed.
+Lemma sgn_neg a : a < 0 -> a / Rabs a = -1.
+Proof. intro H. rewrite Rabs_left by lra. field. lra. Qed.
+
+Lemma var_x_aff a b xs : var_x (map (aff a b) xs) = a * a * var_x xs.
+Proof. unfold var_x. rewrite map_length, Sx_aff, Sx2_aff. ring. Qed.
+Lemma var_y_aff a b xs ys : var_y xs (map (aff a b) ys) = a * a * var_y xs ys.
+Proof.
+  unfold var_y. rewrite Sy2_eq_Sx2, Sx_aff, Sx2_aff. Abort.
+
+Theorem correlation_rescale_x xs ys a b : length xs = length ys -> 0 < var_x xs -> 0 < var_y xs ys ->
+  a <> 0 ->
+  CurveFitting_correlation_coeff Rops (cf_of (map (aff a b) xs) ys) = VFloat (a / Rabs a * r_of xs ys).
+Proof.
+  intros Hl Hx Hy Ha.
+  assert (Hl' : length (map (aff a b) xs) = length ys) by (rewrite map_length; exact Hl).
+  rewrite correlation_value.
+  - unfold r_of. rewrite map_length, Sx_aff, Sx2_aff, (Sxy_aff_l a b xs ys Hl).
+    f_equal. apply corr_r_scale_x; assumption.
+  - rewrite var_x_aff. apply Rmult_lt_0_compat; [destruct (Rdichotomy _ _ Ha); nra | exact Hx].
+  - unfold var_y in *. rewrite map_length. exact Hy.
+Qed.
+
+Theorem correlation_rescale_y xs ys a b : length xs = length ys -> 0 < var_x xs -> 0 < var_y xs ys ->
+  a <> 0 ->
+  CurveFitting_correlation_coeff Rops (cf_of xs (map (aff a b) ys)) = VFloat (a / Rabs a * r_of xs ys).
+Proof.
+  intros Hl Hx Hy Ha.
+  assert (Ey : var_y xs (map (aff a b) ys) = a * a * var_y xs ys).
+  { unfold var_y. change Sy2 with Sx2. rewrite Sx_aff, Sx2_aff, <- Hl. ring. }
+  rewrite correlation_value.
+  - unfold r_of. change Sy2 with Sx2. rewrite Sx_aff, Sx2_aff, (Sxy_aff_r a b xs ys Hl), <- Hl.
+    f_equal. apply corr_r_scale_y; assumption.
+  - exact Hx.
+  - rewrite Ey. apply Rmult_lt_0_compat; [destruct (Rdichotomy _ _ Ha); nra | exact Hy].
+Qed.
+
+(* negation of x (the case a = -1, b = 0) *)
+Lemma map_opp_aff xs : map Ropp xs = map (aff (-1) 0) xs.
+Proof. apply map_ext. intro x. unfold aff. ring. Qed.
+
+(* r of a variable against itself is 1; collinear data *)
+Lemma r_of_self xs : 0 < var_x xs -> r_of xs xs = 1.
+Proof.
+  intro Hx. unfold r_of, corr_r. change Sy2 with Sx2.
+  replace (Sxy xs xs) with (Sx2 xs) by (unfold Sxy; rewrite sum2_diag; reflexivity).
+  fold (var_x xs). rewrite sqrt_sqrt by lra. field. lra.
+Qed.
+
+Theorem correlation_collinear xs al be : 0 < var_x xs -> al <> 0 ->
+  CurveFitting_correlation_coeff Rops (cf_of xs (map (aff al be) xs)) = VFloat (al / Rabs al).
+Proof.
+  intros Hx Ha.
+  assert (Hy : 0 < var_y xs xs) by exact Hx.
+  rewrite (correlation_rescale_y xs xs al be eq_refl Hx Hy Ha), (r_of_self xs Hx).
+  f_equal. ring.
+Qed.
+
+(* ------------------------------------------------- results depend on the stored sums only *)
+Lemma linear_depends_on_sums xl yl xl' yl' P Q Rr S T U V W Rr' S' V' W' N :
+  CurveFitting_linear_fitting Rops (cfobj xl yl P Q Rr S T U V W N)
+  = CurveFitting_linear_fitting Rops (cfobj xl' yl' P Q Rr' S' T U V' W' N).
+Proof.
+  destruct (Rlt_le_dec (Rabs (lin_det (IZR N) P Q)) TOL) as [Hd | Hd].
+  - rewrite !linear_refused by exact Hd. reflexivity.
+  - rewrite !linear_value by exact Hd. reflexivity.
+Qed.
+
+Lemma quadratic_depends_on_sums xl yl xl' yl' P Q Rr S T U V W W' N :
+  CurveFitting_quadratic_fitting Rops (cfobj xl yl P Q Rr S T U V W N)
+  = CurveFitting_quadratic_fitting Rops (cfobj xl' yl' P Q Rr S T U V W' N).
+Proof.
+  destruct (Rlt_le_dec (Rabs (quad_det (IZR N) P Q Rr S)) TOL) as [Hd | Hd].
+  - rewrite !quadratic_refused by exact Hd. reflexivity.
+  - rewrite !quadratic_value by exact Hd. reflexivity.
+Qed.
+
+(* ------------------------------------------------------------- permutations of the points *)
+Lemma fsum_perm (a b : list R) : Permutation a b -> fsum a = fsum b.
+Proof.
+  induction 1; unfold fsum in *; cbn [fold_right]; try lra; try reflexivity.
+Qed.
+
+Lemma combine_fst_snd (l : list (R * R)) : combine (map fst l) (map snd l) = l.
+Proof. induction l as [| [x y] l IH]; [reflexivity |]. cbn [map combine fst snd]. rewrite IH. reflexivity. Qed.
+
+Definition pxs (l : list (R * R)) : list R := map fst l.
+Definition pys (l : list (R * R)) : list R := map snd l.
+
+Lemma sum1_fst_perm g l l' : Permutation l l' -> sum1 g (pxs l) = sum1 g (pxs l').
+Proof. intro Hp. unfold sum1, pxs. apply fsum_perm. do 2 apply Permutation_map. exact Hp. Qed.
+Lemma sum1_snd_perm g l l' : Permutation l l' -> sum1 g (pys l) = sum1 g (pys l').
+Proof. intro Hp. unfold sum1, pys. apply fsum_perm. do 2 apply Permutation_map. exact Hp. Qed.
+Lemma sum2_perm g l l' : Permutation l l' -> sum2 g (pxs l) (pys l) = sum2 g (pxs l') (pys l').
+Proof.
+  intro Hp. unfold sum2, pxs, pys. rewrite !combine_fst_snd. apply fsum_perm, Permutation_map. exact Hp.
+Qed.
+Lemma pxs_pys_length l : length (pxs l) = length (pys l).
+Proof. unfold pxs, pys. rewrite !map_length. reflexivity. Qed.
+
+(* the stored object of a permuted data set has the same sums *)
+Lemma sums_perm l l' : Permutation l l' ->
+  Sx (pxs l') = Sx (pxs l) /\ Sx2 (pxs l') = Sx2 (pxs l) /\ Sx3 (pxs l') = Sx3 (pxs l)
+  /\ Sx4 (pxs l') = Sx4 (pxs l) /\ Sx (pys l') = Sx (pys l) /\ Sxy (pxs l') (pys l') = Sxy (pxs l) (pys l)
+  /\ Sx2y (pxs l') (pys l') = Sx2y (pxs l) (pys l) /\ Sy2 (pys l') = Sy2 (pys l)
+  /\ length (pxs l') = length (pxs l).
+Proof.
+  intro Hp. rewrite <- !sum1_id. unfold Sx2, Sx3, Sx4, Sxy, Sx2y, Sy2.
+  repeat split; symmetry;
+    first [ apply sum1_fst_perm; exact Hp | apply sum1_snd_perm; exact Hp | apply sum2_perm; exact Hp | idtac ].
+  unfold pxs. rewrite !map_length. apply Permutation_length. exact Hp.
+Qed.
+
+Theorem permutation_invariance l l' : Permutation l l' ->
+  CurveFitting_linear_fitting Rops (cf_of (pxs l') (pys l')) = CurveFitting_linear_fitting Rops (cf_of (pxs l) (pys l))
+  /\ CurveFitting_quadratic_fitting Rops (cf_of (pxs l') (pys l')) = CurveFitting_quadratic_fitting Rops (cf_of (pxs l) (pys l))
+  /\ CurveFitting_correlation_coeff Rops (cf_of (pxs l') (pys l')) = CurveFitting_correlation_coeff Rops (cf_of (pxs l) (pys l)).
+Proof.
+  intro Hp. destruct (sums_perm l l' Hp) as (E1 & E2 & E3 & E4 & E5 & E6 & E7 & E8 & E9).
+  unfold cf_of. rewrite E1, E2, E3, E4, E5, E6, E7, E8, E9.
+  split; [apply linear_depends_on_sums |]. split; [apply quadratic_depends_on_sums | apply correlation_depends_on_sums].
+Qed.
+
+(* general fit, arbitrary basis functions: equal sums give equal results in every branch the
+   closed forms cover (third function present, or null third function with the first present) *)
+Definition covered (m r t : R) : Prop :=
+  TOL <= Rabs t \/ (Rabs t < TOL /\ TOL <= Rabs m /\ TOL <= Rabs r) \/ (Rabs r < TOL /\ Rabs t < TOL /\ TOL <= Rabs m).
+
+Section GeneralPerm.
+Context (call : val R -> list (val R) -> val R).
+Context (i0 i1 i2 : positive) (e0 e1 e2 : list (val R)) (g0 g1 g2 : R -> R).
+Context (H0 : forall x, call (VFun i0 e0) [VFloat x] = VFloat (g0 x)).
+Context (H1 : forall x, call (VFun i1 e1) [VFloat x] = VFloat (g1 x)).
+Context (H2 : forall x, call (VFun i2 e2) [VFloat x] = VFloat (g2 x)).
+
+Lemma general_same_sums x xs y ys x' xs' y' ys' P Q Rr S T U V W N P' Q' R' S' T' U' V' W' N' :
+  length xs = length ys -> length xs' = length ys' ->
+  let X := x :: xs in let Y := y :: ys in let X' := x' :: xs' in let Y' := y' :: ys' in
+  G00 g0 X' Y' = G00 g0 X Y -> G01 g0 g1 X' Y' = G01 g0 g1 X Y -> G02 g0 g2 X' Y' = G02 g0 g2 X Y ->
+  G11 g1 X' Y' = G11 g1 X Y -> G12 g1 g2 X' Y' = G12 g1 g2 X Y -> G22 g2 X' Y' = G22 g2 X Y ->
+  GY0 g0 X' Y' = GY0 g0 X Y -> GY1 g1 X' Y' = GY1 g1 X Y -> GY2 g2 X' Y' = GY2 g2 X Y ->
+  covered (G00 g0 X Y) (G11 g1 X Y) (G22 g2 X Y) ->
+  CurveFitting_general_fitting (RopsC call) (cfobj (fl X') (fl Y') P' Q' R' S' T' U' V' W' N')
+    (VFun i0 e0) (VFun i1 e1) (VFun i2 e2)
+  = CurveFitting_general_fitting (RopsC call) (cfobj (fl X) (fl Y) P Q Rr S T U V W N)
+    (VFun i0 e0) (VFun i1 e1) (VFun i2 e2).
+Proof.
+  intros Hl Hl' X Y X' Y' E1 E2 E3 E4 E5 E6 E7 E8 E9 Hc.
+  pose proof (general_closed_forms call i0 i1 i2 e0 e1 e2 g0 g1 g2 H0 H1 H2 x xs y ys P Q Rr S T U V W N Hl) as G.
+  pose proof (general_closed_forms call i0 i1 i2 e0 e1 e2 g0 g1 g2 H0 H1 H2 x' xs' y' ys' P' Q' R' S' T' U' V' W' N' Hl') as G'.
+  cbv zeta in G, G'. fold X Y in G. fold X' Y' in G'.
+  rewrite E1, E2, E3, E4, E5, E6, E7, E8, E9 in G'.
+  destruct G as (C3 & C2 & C1 & R1 & R2 & R3). destruct G' as (C3' & C2' & C1' & R1' & R2' & R3').
+  destruct Hc as [Ht | [(Ht & Hm & Hr) | (Hr & Ht & Hm)]].
+  - destruct (Rlt_le_dec (Rabs (G00 g0 X Y * G11 g1 X Y * G22 g2 X Y)) TOL) as [Hmrt | Hmrt].
+    + rewrite (R2 Ht Hmrt), (R2' Ht Hmrt). reflexivity.
+    + destruct (Rlt_le_dec (Rabs (gen_det (G00 g0 X Y) (G01 g0 g1 X Y) (G02 g0 g2 X Y) (G11 g1 X Y)
+                                           (G12 g1 g2 X Y) (G22 g2 X Y))) TOL) as [Hd | Hd].
+      * rewrite (R3 Ht Hmrt Hd), (R3' Ht Hmrt Hd). reflexivity.
+      * rewrite (C3 Ht Hmrt Hd), (C3' Ht Hmrt Hd). reflexivity.
+  - destruct (Rlt_le_dec (Rabs (gen_det2 (G00 g0 X Y) (G01 g0 g1 X Y) (G11 g1 X Y))) TOL) as [Hd | Hd].
+    + rewrite (R1 Ht Hm Hr Hd), (R1' Ht Hm Hr Hd). reflexivity.
+    + rewrite (C2 Ht Hm Hr Hd), (C2' Ht Hm Hr Hd). reflexivity.
+  - rewrite (C1 Hr Ht Hm), (C1' Hr Ht Hm). reflexivity.
+Qed.
+
+Theorem general_permutation_invariance p l l' P Q Rr S T U V W N P' Q' R' S' T' U' V' W' N' :
+  Permutation (p :: l) l' ->
+  covered (G00 g0 (pxs (p :: l)) (pys (p :: l))) (G11 g1 (pxs (p :: l)) (pys (p :: l)))
+          (G22 g2 (pxs (p :: l)) (pys (p :: l))) ->
+  CurveFitting_general_fitting (RopsC call) (cfobj (fl (pxs l')) (fl (pys l')) P' Q' R' S' T' U' V' W' N')
+    (VFun i0 e0) (VFun i1 e1) (VFun i2 e2)
+  = CurveFitting_general_fitting (RopsC call) (cfobj (fl (pxs (p :: l))) (fl (pys (p :: l))) P Q Rr S T U V W N)
+    (VFun i0 e0) (VFun i1 e1) (VFun i2 e2).
+Proof.
+  intros Hp Hc. destruct l' as [| p' l'].
+  { apply Permutation_sym, Permutation_nil in Hp. discriminate Hp. }
+  destruct p as [x y], p' as [x' y'].
+  apply (general_same_sums x (pxs l) y (pys l) x' (pxs l') y' (pys l')); try apply pxs_pys_length;
+    try exact Hc; unfold G00, G01, G02, G11, G12, G22, GY0, GY1, GY2; symmetry;
+    exact (sum2_perm _ _ _ Hp).
+Qed.
+End GeneralPerm.
+
+(* --------------------------------------------------------- noiseless data are recovered *)
+Lemma sum1_lin3f (c1 c2 c3 : R) (g1 g2 g3 : R -> R) xs :
+  sum1 (fun x => c1 * g1 x + c2 * g2 x + c3 * g3 x) xs = c1 * sum1 g1 xs + c2 * sum1 g2 xs + c3 * sum1 g3 xs.
+Proof.
+  induction xs as [| x xs IH]; [unfold sum1, fsum; simpl; ring |]. rewrite !sum1_cons, IH. ring.
+Qed.
+
+Theorem linear_recovers xs a b :
+  TOL <= Rabs (lin_det (nR xs) (Sx xs) (Sx2 xs)) ->
+  CurveFitting_linear_fitting Rops (cf_of xs (map (aff a b) xs)) = VTuple [VFloat a; VFloat b].
+Proof.
+  intro Hd. pose proof (nonzero_of_guard _ Hd) as Hnz.
+  unfold cf_of. rewrite linear_value by (rewrite IZR_len; exact Hd).
+  rewrite IZR_len. fold (nR xs). rewrite Sx_aff, (Sxy_aff_r a b xs xs eq_refl).
+  replace (Sxy xs xs) with (Sx2 xs) by (unfold Sxy; rewrite sum2_diag; reflexivity).
+  fold (nR xs). unfold lin_det in *.
+  f_equal. f_equal; [| f_equal]; f_equal; field; exact Hnz.
+Qed.
+
+Definition quadf (a b c x : R) : R := a * (x * x) + b * x + c.
+
+Theorem quadratic_recovers xs a b c :
+  TOL <= Rabs (quad_det (nR xs) (Sx xs) (Sx2 xs) (Sx3 xs) (Sx4 xs)) ->
+  CurveFitting_quadratic_fitting Rops (cf_of xs (map (quadf a b c) xs))
+  = VTuple [VFloat a; VFloat b; VFloat c].
+Proof.
+  intro Hd. pose proof (nonzero_of_guard _ Hd) as Hnz.
+  unfold cf_of. rewrite quadratic_value by (rewrite IZR_len; exact Hd).
+  rewrite IZR_len. fold (nR xs).
+  assert (ET : Sx (map (quadf a b c) xs) = a * Sx2 xs + b * Sx xs + nR xs * c).
+  { rewrite Sx_map. unfold quadf, Sx2, nR. rewrite <- (sum1_id xs). apply (sum1_lin3 a b c (fun x => x * x) (fun x => x)). }
+  assert (EU : Sxy xs (map (quadf a b c) xs) = a * Sx3 xs + b * Sx2 xs + c * Sx xs).
+  { unfold Sxy. rewrite sum2_map_r, sum2_diag. unfold quadf, Sx3, Sx2. rewrite <- (sum1_id xs).
+    rewrite (sum1_ext _ (fun x => a * (x * x * x) + b * (x * x) + c * x)) by (intros; ring).
+    apply sum1_lin3f. }
+  assert (EV : Sx2y xs (map (quadf a b c) xs) = a * Sx4 xs + b * Sx3 xs + c * Sx2 xs).
+  { unfold Sx2y. rewrite sum2_map_r, sum2_diag. unfold quadf, Sx4, Sx3, Sx2.
+    rewrite (sum1_ext _ (fun x => a * (x * x * (x * x)) + b * (x * x * x) + c * (x * x))) by (intros; ring).
+    apply sum1_lin3f. }
+  rewrite ET, EU, EV. unfold quad_a, quad_b, quad_c.
+  rewrite quad_det_eq in *.
+  f_equal. f_equal; [| f_equal; [| f_equal]]; f_equal; field; exact Hnz.
+Qed.
+
+(* ------------------------------------------------------------ statements as used in C17.v *)
+Lemma correlation_collinear_pm : forall xs al be, 0 < var_x xs ->
+  (0 < al -> CurveFitting_correlation_coeff Rops (cf_of xs (map (aff al be) xs)) = VFloat 1)
+  /\ (al < 0 -> CurveFitting_correlation_coeff Rops (cf_of xs (map (aff al be) xs)) = VFloat (-1)).
+Proof.
+  intros xs al be Hx. split; intro Ha.
+  - rewrite correlation_collinear by (try exact Hx; lra). rewrite sgn_pos by exact Ha. reflexivity.
+  - rewrite correlation_collinear by (try exact Hx; lra). rewrite sgn_neg by exact Ha. reflexivity.
+Qed.
+
+Lemma correlation_rescaling_all : forall xs ys a b, length xs = length ys ->
+  0 < var_x xs -> 0 < var_y xs ys ->
+  CurveFitting_correlation_coeff Rops (cf_of xs ys) = VFloat (r_of xs ys)
+  /\ (0 < a -> CurveFitting_correlation_coeff Rops (cf_of (map (aff a b) xs) ys) = VFloat (r_of xs ys)
+              /\ CurveFitting_correlation_coeff Rops (cf_of xs (map (aff a b) ys)) = VFloat (r_of xs ys))
+  /\ (a < 0 -> CurveFitting_correlation_coeff Rops (cf_of (map (aff a b) xs) ys) = VFloat (- r_of xs ys)
+              /\ CurveFitting_correlation_coeff Rops (cf_of xs (map (aff a b) ys)) = VFloat (- r_of xs ys))
+  /\ CurveFitting_correlation_coeff Rops (cf_of (map Ropp xs) ys) = VFloat (- r_of xs ys).
+Proof.
+  intros xs ys a b Hl Hx Hy.
+  split; [exact (correlation_value xs ys Hx Hy) |].
+  split; [| split].
+  - intro Ha. rewrite correlation_rescale_x, correlation_rescale_y by (try assumption; lra).
+    rewrite sgn_pos by exact Ha. rewrite Rmult_1_l. split; reflexivity.
+  - intro Ha. rewrite correlation_rescale_x, correlation_rescale_y by (try assumption; lra).
+    rewrite sgn_neg by exact Ha. split; f_equal; ring.
+  - rewrite map_opp_aff, correlation_rescale_x by (try assumption; lra).
+    rewrite sgn_neg by lra. f_equal. ring.
+Qed.
+
+Lemma general_permutation_invariance_cf :
+  forall (call : val R -> list (val R) -> val R) i0 i1 i2 e0 e1 e2 (g0 g1 g2 : R -> R),
+  (forall x, call (VFun i0 e0) [VFloat x] = VFloat (g0 x)) ->
+  (forall x, call (VFun i1 e1) [VFloat x] = VFloat (g1 x)) ->
+  (forall x, call (VFun i2 e2) [VFloat x] = VFloat (g2 x)) ->
+  forall p l l', Permutation (p :: l) l' ->
+  covered (G00 g0 (pxs (p :: l)) (pys (p :: l))) (G11 g1 (pxs (p :: l)) (pys (p :: l)))
+          (G22 g2 (pxs (p :: l)) (pys (p :: l))) ->
+  CurveFitting_general_fitting (RopsC call) (cf_of (pxs l') (pys l')) (VFun i0 e0) (VFun i1 e1) (VFun i2 e2)
+  = CurveFitting_general_fitting (RopsC call) (cf_of (pxs (p :: l)) (pys (p :: l))) (VFun i0 e0) (VFun i1 e1) (VFun i2 e2).
+Proof.
+  intros call i0 i1 i2 e0 e1 e2 g0 g1 g2 H0 H1 H2 p l l' Hp Hc. unfold cf_of.
+  exact (general_permutation_invariance call i0 i1 i2 e0 e1 e2 g0 g1 g2 H0 H1 H2 p l l' _ _ _ _ _ _ _ _ _ _ _ _ _ _ _ _ _ _ Hp Hc).
 Qed.
